@@ -24,7 +24,7 @@ RULE = ("Three cases in four: Hypothesis generates configurations that mix scrip
         "earlier run of a different configuration B (independent, or derived from A: same ids but other volatilities / "
         "correlations / prices / seed, so that state keyed by ids would leak), and (b) in 2 (quick) / 4 (thorough) FRESH "
         "interpreters per case started with different PYTHONHASHSEED values (drawn per case from 1..4000) and differently seeded "
-        "global generators, and (c) when the members of every settings object are listed in reverse order (a JSON object is unordered; arrays keep their order); the settings dict must be deep-equal before and after; a different seed must change the digest. "
+        "global generators (the last of them under python -O, i.e. with assert statements stripped), and (c) when the members of every settings object are listed in reverse order (a JSON object is unordered; arrays keep their order); the settings dict must be deep-equal before and after; a different seed must change the digest. "
         "Non-trivial = configuration with >=3 agent classes and >=1 event whose run has >=50 log records.")
 ASSUMPTIONS = ["hash-seed dependence that needs a specific collision pattern may need more hash seeds than were used (stated above)"]
 
@@ -93,8 +93,11 @@ def cases(draw, tier):
 def ask_fresh_workers(plans):
     """plans: [(hash_seed, [case, ...])]; one FRESH interpreter per plan (in parallel); returns the digest records per plan."""
     procs = []
-    for hs, runs in plans:
+    for n_plan, (hs, runs) in enumerate(plans):
         env = dict(os.environ, PYTHONHASHSEED=str(hs), C07_SALT=str(hs), VERIF_REEXEC="1", OPENBLAS_NUM_THREADS="1", OMP_NUM_THREADS="1")
+        env.pop("PYTHONOPTIMIZE", None)
+        if n_plan == len(plans) - 1 and n_plan >= 2:
+            env["PYTHONOPTIMIZE"] = "1"  # the last plain-A worker runs under python -O (assert statements stripped)
         p = subprocess.Popen([sys.executable, os.path.join(VERIF_DIR, "pbt", "c07_worker.py")], stdin=subprocess.PIPE, stdout=subprocess.PIPE,
                              stderr=subprocess.PIPE, env=env, text=True)
         procs.append((p, json.dumps({"runs": runs})))
@@ -161,7 +164,8 @@ def make_check(n_workers):
             raise Violation("C07.member_order_of_settings", "the run differs when the members of the settings objects are listed in another order (same names, same values)")
         for h, a in zip(hs[1:], ans[2:]):
             if a[0]["digest"] != ref["digest"]:
-                raise Violation("C07.hash_seed_or_global_state", f"the run differs in a fresh process started with PYTHONHASHSEED={h} and differently seeded global generators")
+                raise Violation("C07.hash_seed_or_global_state", f"the run differs in a fresh process started with PYTHONHASHSEED={h} and differently seeded global generators"
+                                                                 + (" under python -O (PYTHONOPTIMIZE=1)" if h == hs[-1] else ""))
         changed = ans[0][2]["digest"] != ref["digest"]
         nt = len(ref["classes"]) >= 4 and ref["n_logs"] >= 50 and any(c for c in ref["classes"] if "Shock" in c or "Rule" in c or "Probe" in c)
         return CaseInfo(nontrivial=nt, classes=(["seed_changes_outcome"] if changed else ["seed_irrelevant"]) + [f"hash_seeds_{1 + len(hs)}"] + ref["classes"]
